@@ -13,6 +13,8 @@
 #include <vector>
 #include <fcntl.h>
 #include <unistd.h>
+#include <signal.h>
+#include <sys/time.h>
 
 namespace vf {
 
@@ -82,8 +84,16 @@ struct Stats {
     }
     if (evaluations % flush_every == 0) flush();
   }
+  // CPU-time watchdog per case (ITIMER_VIRTUAL counts this process's user time only, so machine load cannot trip it).
+  static void on_hang(int) { static const char m[] = "\nERROR: VERIF-HANG: case exceeded its CPU-time budget\n"; if (write(2, m, sizeof m - 1) < 0) {} _exit(94); }
+  void arm_watchdog() {
+    static bool installed = false; static long secs = 0;
+    if (!installed) { signal(SIGVTALRM, on_hang); const char *e = getenv("VERIF_CASE_CPU_S"); secs = e && *e ? atol(e) : 10; installed = true; }
+    struct itimerval it; memset(&it, 0, sizeof it); it.it_value.tv_sec = secs; setitimer(ITIMER_VIRTUAL, &it, nullptr);
+  }
   // Write the case about to run, so the driver holds it if the process dies.
   void about_to_run(const std::string &text) {
+    arm_watchdog();
     if (last_path.empty()) return;
     if (last_fd < 0) last_fd = open(last_path.c_str(), O_WRONLY | O_CREAT | O_TRUNC, 0644);
     if (last_fd < 0) return;
@@ -120,7 +130,7 @@ struct Stats {
   }
 };
 
-inline Stats &stats() { static Stats s; return s; }
+inline Stats &stats() { static Stats *s = new Stats; return *s; }   // never destroyed: flushed from atexit handlers
 
 inline void msg(const char *fmt, ...) __attribute__((format(printf, 1, 2)));
 inline void msg(const char *fmt, ...) {
